@@ -48,10 +48,30 @@ def seatv(p) -> int:
 # C15
 # --------------------------------------------------------------------------
 def c15_events() -> List[Dict[str, Any]]:
+    """Two passes over the complete domains in one process; between them every
+    decoder is offered a few malformed texts (results ignored): what a
+    converter did before - a first use, a refused input - must not matter."""
+    Bid, Card, Contract, Hands, Pair, Player, Suit, Vul = _imp()
+    first = c15_pass('n')
+    for fn, bad in ((Bid.str_to_bid, ['8C', '0NT', '1X', '', 'pass', '1c']),
+                    (Card.str_to_card, ['X2', 'C1', 'CAA', '', 'c2']),
+                    (Vul.str_to_vul, ['none', 'NSEW', '', 'love']),
+                    (Player.convert_formal_name, ['north', 'N', '']),
+                    (Card.rank_str_to_int, ['x', '']),
+                    (lambda t: Contract.str_to_contract(t), ['8C', '1CXXX', '', 'passed_out'])):
+        for b in bad:
+            try:
+                fn(b)
+            except Exception:  # noqa
+                pass
+    return first + c15_pass('o')
+
+
+def c15_pass(prefix: str) -> List[Dict[str, Any]]:
     Bid, Card, Contract, Hands, Pair, Player, Suit, Vul = _imp()
     from bridge_env.network_bridge.client import Client
     from bridge_env.network_bridge.server import Server
-    R = Rec('n')
+    R = Rec(prefix)
     for s in range(4):
         for rank in range(2, 15):
             R.add('card.props', {'rank': rank, 'suit': s},
@@ -247,8 +267,9 @@ def c14_job(job) -> List[Dict[str, Any]]:
     r = rng('c14', sd, tid)
     for dl in deals:
         first = r.randrange(4)
-        for f in ([first, (first + 1) % 4] if len(deals) > 3 else range(4)):
-            hb = make_hands(dl)
+        hb = make_hands(dl)        # ONE object rendered from several first seats
+        for f in ([first, (first + 1) % 4, first] if len(deals) > 3 else
+                  [0, 1, 2, 3, 1, 0]):
             text_box: Dict[str, str] = {}
 
             def enc():
@@ -502,10 +523,17 @@ def c19_message_events(tier: str, r) -> List[Dict[str, Any]]:
         t = tb.get('t')
         if t is None:
             continue
-        for sent in (t, t + ' '):
+        for sent in (t, t + ' ', t):
             def ph():
                 hs, vec = Client.parse_hand(sent)
-                return {'out': cards_sorted(hs), 'vec': [int(x) for x in vec]}
+                out = {'out': cards_sorted(hs), 'vec': [int(x) for x in vec]}
+                # the caller owns the result (the client plays cards out of
+                # it): emptying it must not influence a later parse
+                try:
+                    hs.clear()
+                except Exception:  # noqa
+                    pass
+                return out
             R.add('msg.parse_hand', {'base': t, 'sent': sent}, ph)
         owner = r.choice(SEATS + ['Dummy'])
         full = f"{owner}'s cards : {t}"
